@@ -132,6 +132,12 @@ var leakPaths = []string{
 	"$ ? (@.a == 1).b + 1",
 	"$[*] ? (@ > 0).double()",
 	"$ ? (@.a == 1).a.integer()",
+	// the right operand fails for an earlier item, a later item passes the
+	// filter and fails the step after it
+	"strict $[*] ? (@.a == @.b).c",
+	"strict $[*] ? (@.a > @.b[1]).c",
+	"$[*] ? (@.a < @.b.double()).c.double()",
+	"strict $[*] ? (exists(@.b) && @.a == 1).c",
 }
 
 // C08_NoLeak: the suppression used inside predicates never leaks: after a
@@ -139,7 +145,23 @@ var leakPaths = []string{
 // (error class equals the stateless reference).
 func C08_NoLeak() {
 	src := leakPaths[nd.Choice(len(leakPaths))]
-	doc := nd.JSON(poolDocSpec())
+	var doc any
+	if nd.Choice(2) == 0 {
+		doc = nd.JSON(poolDocSpec())
+	} else {
+		// two items, so that the failure of one can reach the other
+		mk := func() any {
+			m := map[string]any{"a": nd.JSON(nd.Spec{Kinds: nd.KFloat})}
+			if nd.Choice(2) == 1 {
+				m["b"] = nd.JSON(nd.Spec{Kinds: nd.KFloat | nd.KString | nd.KArray, Depth: 1, Width: 1, StrLen: 1, ASCII: true})
+			}
+			if nd.Choice(2) == 1 {
+				m["c"] = nd.JSON(nd.Spec{Kinds: nd.KFloat | nd.KString, StrLen: 1, ASCII: true})
+			}
+			return m
+		}
+		doc = []any{mk(), mk()}
+	}
 	p := parse(src)
 	_, gerr := p.Query(bg, doc)
 	_, werr, open, _ := refQuery(p.AST, doc, nil)
